@@ -108,6 +108,11 @@ class C09Run(StateRun):
         self.state._attacher_error = self.on_attacher_error
         self.real_to_model = {}
         sim.net.listen('tcp', 9050, lambda dest: ViaSocksPeer(self))
+        # fault: Tor refuses to leave streams unattached (the first SETCONF of the first stream_via() connect)
+        self.refuse_leave = self.mode == 'via' and ch.chance(1, 8, 'refuseleave')
+        if self.refuse_leave:
+            from ..ctlpeer import err
+            self.tor.setconf_policy = self.refuse_policy
         sim.reactor.local_port_hook = self.local_port
         sim.add_source(self.c09_actions)
 
@@ -135,6 +140,16 @@ class C09Run(StateRun):
             s = StateRun.w_stream_new(self, via=via, sport=p, target=target or ('reuse%d.example' % p, 80))
             return s
         return StateRun.w_stream_new(self, via=via, sport=sport, target=target)
+
+    def refuse_policy(self, items):
+        from ..ctlpeer import err
+        if any(k.lower() == '__leavestreamsunattached' and v == '1' for k, v in items):
+            self.sim.fault('tor-refuses-leave-streams-unattached')
+            self.refused_seen = True
+            return err(553, 'Unable to set option: simulated refusal')
+        return None
+
+    refused_seen = False
 
     def local_port(self, connector, drawn):
         # the kernel may hand a later SOCKS connection the local port an earlier, finished one used
@@ -298,6 +313,7 @@ class C09Run(StateRun):
         self.attacher = self.make_attacher('first')
         self.attacher_installed = True
         self.installed_obj = self.attacher
+        early = False
         if self.ch.chance(1, 3, 'priority'):
             # the library's own composition of attachers: sub-attachers are consulted in priority order and the
             # first one with an opinion wins; ours sits behind two that never have one (one of them removed again)
@@ -312,6 +328,12 @@ class C09Run(StateRun):
                 def attach_stream_failure(self, stream, fail):
                     return None
             pa = PriorityAttacher()
+            if self.ch.chance(1, 3, 'emptyfirst'):
+                # the composite is installed while it is still empty; its sub-attachers are added afterwards
+                self.sim.probe('priority-attacher-installed-empty')
+                self.sim.log('set_attacher', 'empty composite')
+                self.state.set_attacher(pa, self.sim.reactor)
+                early = True
             gone = Silent()
             pa.add_attacher(gone, priority=0)
             pa.add_attacher(Silent(), priority=0)
@@ -329,10 +351,11 @@ class C09Run(StateRun):
             pa.remove_attacher(gone)
             self.installed_obj = pa
             self.sim.probe('priority-attacher')
-        self.sim.log('set_attacher')
-        self.state.set_attacher(self.installed_obj, self.sim.reactor)
+        if not early:
+            self.sim.log('set_attacher')
+            self.state.set_attacher(self.installed_obj, self.sim.reactor)
         # installing the same attacher again is a no-op
-        if self.ch.chance(1, 3, 'again'):
+        if self.ch.chance(1, 3, 'again') and not early:
             self.state.set_attacher(self.installed_obj, self.sim.reactor)
 
     def op_second(self):
@@ -379,6 +402,11 @@ class C09Run(StateRun):
         sim.log('stream_via', k, mc.id, mc.state)
         ep = mc.real.stream_via(sim.reactor, host, 80, TCP4ClientEndpoint(sim.reactor, '127.0.0.1', 9050))
         d = ep.connect(Factory.forProtocol(App))
+        wc = self.circs.get(mc.id)
+        if wc is not None and not wc.gone and ch.chance(1, 5, 'closeunder'):
+            # the chosen circuit goes away while the connection is being made (often before its stream appears)
+            sim.probe('via-circuit-closes-meanwhile')
+            self.deferred_world.append(lambda wc=wc: (not wc.gone) and self.w_circ_end(wc, 'CLOSED'))
         d.addCallbacks(lambda p: rec['result'].append(('ok', p)), lambda f: rec['result'].append(('err', f.type.__name__, f.getErrorMessage()[:100])))
 
     def on_world_stream_new(self, s):
@@ -467,6 +495,19 @@ class C09Run(StateRun):
                 tail = self.setconf_log[self.n_setconf_before_remove:]
                 if not any(k.lower() == '__leavestreamsunattached' and v == '0' for items in tail for k, v in items):
                     sim.fail('C09.attacher-removal-not-announced', 'set_attacher(None) but Tor never received SETCONF __LeaveStreamsUnattached=0 (got %r)' % (tail,))
+        elif self.refuse_leave and self.refused_seen:
+            # Tor never agreed to leave streams unattached, so no connection can be pinned to a circuit: every
+            # connect() must fail (also the later ones), none may hang, none may report success
+            for v in self.vias:
+                if not v['result']:
+                    sim.fail('C09.via-connect-pending-after-refusal',
+                             'connection %d through circuit %d neither failed nor completed although Tor refused to leave streams unattached' % (
+                                 v['k'], v['mc'].id))
+                if v['result'][0][0] == 'ok':
+                    on = [getattr(x, 'succeeded_on', None) for x in v['streams']]
+                    sim.fail('C09.via-connect-succeeded-after-refusal',
+                             'connection %d through circuit %d succeeded (its stream ran on %r) although Tor had refused to leave streams '
+                             'unattached' % (v['k'], v['mc'].id, [getattr(c, 'id', None) for c in on]))
         else:
             for v in self.vias:
                 if v['result'] and v['result'][0][0] == 'ok':
